@@ -13,11 +13,22 @@ def physical_address_contract(m, value):
     assume(mapping_wf(m))
     assume(0 <= value and value < 0x1000000)
     r = m.physical_address(value)
-    if m.writable is False:
+    # ROM = not writable, however that was said: False / omitted for the built-in buses, the NUMBER 0 for a `.map ... writable=0`; RAM = True / 1
+    if not m.writable:
         assume(busmath.in_window(m.mask, value))
         check("rom_offset", r == busmath.rom_offset(m.bank_range[0], m.mask, value))
     else:
         check("ram_none", r is None)
+
+
+def mapping_from_directive_contract(lo, hi, mask, writable, value):
+    """A mapping built the way the `.map` directive builds it -- through Mapping(...) with the attribute values as PARSED (the numbers 0 / 1 for
+    writable) -- obeys the same law: writable=0 is ROM (file offsets), writable=1 is RAM (none)."""
+    from a816.cpu.mapping import Mapping
+    assume(0 <= lo and lo <= hi and hi <= 0xFF)
+    m = Mapping((lo, hi), (0, 0xFFFF), mask, writable)
+    physical_address_contract(m, value)
+    check("writable_flag_reads_as_declared", bool(m.writable) == (writable != 0))
 
 
 def physical_address_out_of_window_contract(m, value):
